@@ -196,4 +196,63 @@ LawLatDominates(a, b, S) ==
 LawLatOrder(a, b) == /\ LatDescrCmp(MinLat(a, b), MaxLat(a, b)) <= 0
                      /\ LatDescrCmp(MaxLat(a, b), LatOf(a)) >= 0 /\ LatDescrCmp(MaxLat(a, b), LatOf(b)) >= 0
                      /\ LatDescrCmp(MinLat(a, b), LatOf(a)) <= 0 /\ LatDescrCmp(MinLat(a, b), LatOf(b)) <= 0
+
+(* ---- shrunk arcs: arbitrarily short arcs with an inherited exact class ------------- *)
+\* For a direction w strictly inside the arc (a, b), the arc (M w + a, M w + b) lies on the same great
+\* circle, inside (a, b), and still contains w strictly inside, for every integer M >= 0; its length is
+\* about 1/M.  So a crossing pair shrunk around its crossing direction still crosses exactly there, an
+\* interior point stays interior, and whatever was outside (a, b) stays outside.  TLC checks these laws
+\* with the exact forms for small M (ArcScope.tla); for M = 10^k the harness builds the integer vectors
+\* exactly and the class is inherited by the law.  Only quantities *linear* in M are evaluated here for
+\* large M (32-bit safe).
+Shr(M, w, a) == [ i \in 1..3 |-> M * w[i] + a[i] ]
+ShrinkMs == 1..3
+LawShrinkTriple(a, b, p, S) ==
+    StrictlyWithinArc(a, b, p) =>
+        \A M \in ShrinkMs :
+           LET A == Shr(M, p, a)  B == Shr(M, p, b) IN
+           /\ IsArc(A, B) /\ SameDir(Cross(A, B), Cross(a, b))
+           /\ ArcClass(A, B, p) = "Interior"
+           /\ StrictlyWithinArc(a, b, A) /\ StrictlyWithinArc(a, b, B)
+           /\ \A q \in S : ArcClass(a, b, q) \in {"OnCircleOutside", "Off"} => ArcClass(A, B, q) = ArcClass(a, b, q)
+LawShrinkPair(a, b, c, d) ==
+    Crosses(a, b, c, d) =>
+        \A M \in ShrinkMs :
+           LET w == CrossPoint(a, b, c, d)
+               A == Shr(M, w, a)  B == Shr(M, w, b)  C == Shr(M, w, c)  D == Shr(M, w, d)
+           IN /\ ArcPairClass(A, B, C, D) = ArcPairClass(a, b, c, d)          \* sign form
+              /\ StrictlyWithinArc(A, B, w) /\ StrictlyWithinArc(C, D, w)      \* definitional form
+              /\ SameDir(CrossPoint(A, B, C, D), w)
+\* bulge tests of the shrunk arc, linear in M: with n = a x b the normal of (M w + a) x (M w + b) is a
+\* positive multiple of n, and  A_y n_x - A_x n_y = M (w_y n_x - w_x n_y) + (a_y n_x - a_x n_y)
+GForm(n, v) == v[2] * n[1] - v[1] * n[2]
+ShrunkBulgesNorth(a, b, w, M) ==
+    LET n == Cross(a, b) IN
+    /\ (n[1] # 0 \/ n[2] # 0)
+    /\ M * GForm(n, w) + GForm(n, a) > 0
+    /\ -(M * GForm(n, w)) - GForm(n, b) > 0
+ShrunkBulgesSouth(a, b, w, M) == ShrunkBulgesNorth(Neg(a), Neg(b), Neg(w), M)
+LawShrinkLat(a, b, p) ==
+    StrictlyWithinArc(a, b, p) =>
+        \A M \in ShrinkMs :
+           /\ ShrunkBulgesNorth(a, b, p, M) <=> BulgesNorth(Shr(M, p, a), Shr(M, p, b))
+           /\ ShrunkBulgesSouth(a, b, p, M) <=> BulgesSouth(Shr(M, p, a), Shr(M, p, b))
+\* margins for M = 10^k (M >= 3): |M w + e|^2 <= 2 M^2 max(|w|^2, |e|^2), so
+\*   sin^2(dist) >= num / (2 M^2 S den)  >=  4e-12   <=   8 S den <= num 10^(12 - 2k)      (2e-6 rad)
+Pow10(j) == CASE j = 0 -> 1 [] j = 1 -> 10 [] j = 2 -> 100 [] j = 3 -> 1000 [] j = 4 -> 10000
+              [] j = 5 -> 100000 [] j = 6 -> 1000000 [] j = 7 -> 10000000 [] j = 8 -> 100000000
+MaxOf(x, y) == IF x > y THEN x ELSE y
+ShrinkFar(num, den, S, k) ==      \* num / den = sin^2 of the base configuration's numerator over denominators
+    /\ num > 0
+    /\ IF 12 - 2 * k >= 9 THEN TRUE ELSE (8 * S * den) \div num <= Pow10(12 - 2 * k)
+ShrinkEndFar(e, w, n, k) == LET t == Dot(e, n) IN ShrinkFar(t * t, N2(n), MaxOf(N2(w), N2(e)), k)
+ShrinkPairOK(a, b, c, d, k) ==
+    LET w == CrossPoint(a, b, c, d)  n1 == Cross(a, b)  n2 == Cross(c, d) IN
+    /\ k \in 1..5 /\ PairJudged(a, b, c, d) /\ Crosses(a, b, c, d)
+    /\ ShrinkEndFar(a, w, n2, k) /\ ShrinkEndFar(b, w, n2, k)
+    /\ ShrinkEndFar(c, w, n1, k) /\ ShrinkEndFar(d, w, n1, k)
+\* the interior point p is at least 2e-6 rad from both endpoints of the shrunk arc: (M p + e) x p = e x p
+ShrinkTripleOK(a, b, p, k) ==
+    /\ k \in 1..5 /\ ArcMargin(a, b) /\ StrictlyWithinArc(a, b, p)
+    /\ \A e \in {a, b} : ShrinkFar(N2(Cross(e, p)), N2(p), MaxOf(N2(p), N2(e)), k)
 =============================================================================
